@@ -37,7 +37,10 @@ RULE = ('units strings built from (period, date, time of day, offset, calendar, 
         'real format_time_units_for_ems, cftime.num2pydate, _parse_date, _datesplit vs the model. The denoted '
         'instant of a generated case is computed from its fields with datetime, never by parsing. Dataset round '
         'trips: every convention, tagged float / int / int-with-fill variables, a time coordinate with encoding '
-        'units, in memory or opened from a file. Non-trivial: offset != 0, or local date != UTC date, or year < '
+        'units, in memory or opened from a file. The calendar attribute / encoding of the time variable is spelled as '
+        'other tools write it (lower case, UPPER, Capitalised, Title_Case, mixed; gregorian for standard) in the '
+        'fix_time_units_for_ems files, the time-coordinate saves and the round trips, and the units attribute found '
+        'in the file afterwards is held against the form / same-instant / same-zone clauses directly. Non-trivial: offset != 0, or local date != UTC date, or year < '
         '1000, or a non-canonical spelling; distinct = distinct (units string, calendar).')
 TRUSTED = [
     'cftime units grammar (_datesplit, ISO8601_REGEX / TIMEZONE_REGEX, _parse_date, num2pydate): modelled as it behaves (Ems.TimeUnits.parseDate / parseOffset / refInstant), compared with the real cftime on every generated string',
@@ -249,33 +252,38 @@ def classify_output(period: str, out: str) -> str | None:
     return 'time-units-form'
 
 
-def oracle_units(ctx, calendar: str, units: str, out: str, case: dict | None, desc: dict) -> str | None:
+def oracle_units(ctx, calendar: str, units: str, out: str, case: dict | None, desc: dict, fn: str | None = None) -> str | None:
     """Brute-force statement of the property for one call of the real function. Returns the
-    signature it reported (None when the property holds on this input)."""
+    signature it reported (None when the property holds on this input). `out` is what the real code
+    produced from (`units`, `calendar`): the return value of format_time_units_for_ems, or - with `fn`
+    naming the entry point - the units attribute found in the file after a save / an in-place rewrite."""
     import cftime
+    call = (f'format_time_units_for_ems({units!r}, {calendar!r})' if fn is None
+            else f'{fn} units {units!r}, calendar {calendar!r}')
+    arrow = f'{units!r}' if fn is None else f'{fn} calendar {calendar!r}: {units!r}'
     if case is not None and TU.is_valid(case):
         want_utc = TU.utc_instant(case)
         if out == 'ERR':
             sig = 'time-units-offset-format' if TU.f5_class(case['off']) else 'time-units-valid-input-rejected'
-            ctx.oracle_fail(sig, desc, f'format_time_units_for_ems({units!r}, {calendar!r}) raises on a valid units string '
+            ctx.oracle_fail(sig, desc, f'{call} raises on a valid units string '
                                        f'(offset {case["off"]} min)')
             return sig
         text = unesc(out)
         sig = classify_output(case['period'].lower(), text)
         if sig:
-            ctx.oracle_fail(sig, desc, f'{units!r} -> {text!r}: not of the form "<unit> since YYYY-MM-DD HH:MM:SS +HH:MM"')
+            ctx.oracle_fail(sig, desc, f'{arrow} -> {text!r}: not of the form "<unit> since YYYY-MM-DD HH:MM:SS +HH:MM"')
             return sig
         try:
             got = cftime.num2pydate(0, text, calendar)
         except Exception as e:
-            ctx.oracle_fail('time-units-unreadable', desc, f'{units!r} -> {text!r} which cftime rejects: {e}')
+            ctx.oracle_fail('time-units-unreadable', desc, f'{arrow} -> {text!r} which cftime rejects: {e}')
             return 'time-units-unreadable'
         if got != want_utc:
-            ctx.oracle_fail('time-units-instant-changed', desc, f'{units!r} denotes {want_utc} UTC, rewritten {text!r} denotes {got}')
+            ctx.oracle_fail('time-units-instant-changed', desc, f'{arrow} denotes {want_utc} UTC, rewritten {text!r} denotes {got}')
             return 'time-units-instant-changed'
         if text != TU.canonical(case):
             sig = 'time-units-period-changed' if text.split(' ')[0] != case['period'].lower() else 'time-units-zone-changed'
-            ctx.oracle_fail(sig, desc, f'{units!r} -> {text!r}, expected {TU.canonical(case)!r} (same zone, same unit)')
+            ctx.oracle_fail(sig, desc, f'{arrow} -> {text!r}, expected {TU.canonical(case)!r} (same zone, same unit)')
             return sig
         return None
     # no ground truth (malformed stream / invalid case): whatever is returned must still have the
@@ -289,23 +297,29 @@ def oracle_units(ctx, calendar: str, units: str, out: str, case: dict | None, de
             return None
         if ref.microsecond == 0 and abs(bits[-1]) < 1440 and 1 <= bits[0] <= 9999:
             sig = 'time-units-offset-format' if TU.f5_class(int(bits[-1])) else 'time-units-valid-input-rejected'
-            ctx.oracle_fail(sig, desc, f'format_time_units_for_ems({units!r}, {calendar!r}) raises although cftime reads the '
+            ctx.oracle_fail(sig, desc, f'{call} raises although cftime reads the '
                                        f'string as {ref} UTC, offset {int(bits[-1])} min')
             return sig
         return None
     text = unesc(out)
+    if fn is not None and text == units:
+        # a file whose units were left as they were: only a string that denotes an instant is inside the quantifier
+        try:
+            cftime.num2pydate(0, units, calendar)
+        except Exception:
+            return None
     sig = classify_output('', text)
     if sig:
-        ctx.oracle_fail(sig, desc, f'{units!r} -> {text!r}: not of the form "<unit> since YYYY-MM-DD HH:MM:SS +HH:MM"')
+        ctx.oracle_fail(sig, desc, f'{arrow} -> {text!r}: not of the form "<unit> since YYYY-MM-DD HH:MM:SS +HH:MM"')
         return sig
     try:
         a = cftime.num2pydate(0, units, calendar)
         b = cftime.num2pydate(0, text, calendar)
     except Exception as e:
-        ctx.oracle_fail('time-units-unreadable', desc, f'{units!r} -> {text!r}: {e}')
+        ctx.oracle_fail('time-units-unreadable', desc, f'{arrow} -> {text!r}: {e}')
         return 'time-units-unreadable'
     if a != b:
-        ctx.oracle_fail('time-units-instant-changed', desc, f'{units!r} denotes {a}, rewritten {text!r} denotes {b}')
+        ctx.oracle_fail('time-units-instant-changed', desc, f'{arrow} denotes {a}, rewritten {text!r} denotes {b}')
         return 'time-units-instant-changed'
     return None
 
@@ -643,55 +657,112 @@ def file_fill_stream(ctx, batch: Batch) -> None:
 # --------------------------------------------------------------------------
 # fix_time_units_for_ems on a file
 
-def fixattrs_stream(ctx, batch: Batch) -> None:
-    """files written with netCDF4 directly: the time variable with / without `units` and `calendar`;
-    the real fix_time_units_for_ems against the model; nothing but the units attribute may change"""
+def calendar_spelling(rng, calendar: str) -> str:
+    """Another spelling of the same calendar: CF calendar names are not case sensitive (cftime, xarray and
+    udunits fold them), `gregorian` is a synonym of `standard`, and files written by other tools carry
+    `Gregorian`, `GREGORIAN`, `Standard`, `Proleptic_Gregorian`, ...; xarray keeps the source's spelling in
+    the encoding and writes it back verbatim."""
+    base = calendar.lower()
+    if base in ('standard', 'gregorian') and rng.random() < 0.5:
+        base = 'gregorian' if base == 'standard' else 'standard'
+    style = rng.choice(['upper', 'capital', 'title', 'mixed'])
+    if style == 'upper':
+        return base.upper()
+    if style == 'capital':
+        return base.capitalize()
+    if style == 'title':
+        return '_'.join(w.capitalize() for w in base.split('_'))
+    out = ''.join(ch.upper() if rng.random() < 0.5 else ch for ch in base)
+    return out if out != base else base.upper()
+
+
+def impl_fixattrs(tmp: str, units: str | None, cal: str | None) -> tuple:
+    """A file as another tool writes it (netCDF4 directly): a time variable with / without `units` and
+    `calendar`, and a second variable with time-like units. Runs the real fix_time_units_for_ems on it.
+    Returns (units attribute afterwards, escaped | 'ERR', did everything else stay as it was | None)."""
     import netCDF4
     from emsarray.utils import fix_time_units_for_ems
+    path = os.path.join(tmp, 'fx.nc')
+    if os.path.exists(path):
+        os.unlink(path)
+    with netCDF4.Dataset(path, 'w') as nc:
+        nc.createDimension('record', 3)
+        v = nc.createVariable('t', 'f8', ('record',))
+        v[:] = [0.0, 1.5, 2.0]
+        v.long_name = 'Time'
+        if units is not None:
+            v.units = units
+        if cal is not None:
+            v.calendar = cal
+        w = nc.createVariable('other', 'i4', ('record',))
+        w[:] = [7, 8, 9]
+        w.units = 'days since 2000-01-01'
+    try:
+        fix_time_units_for_ems(path, 't')
+        with netCDF4.Dataset(path) as nc:
+            v = nc.variables['t']
+            got = v.getncattr('units')
+            got = esc(got) if isinstance(got, str) else 'ERR'
+            same = (list(v[:]) == [0.0, 1.5, 2.0] and v.long_name == 'Time'
+                    and (cal is None or v.calendar == cal)
+                    and sorted(v.ncattrs()) == sorted(['long_name', 'units'] + (['calendar'] if cal is not None else []))
+                    and nc.variables['other'].units == 'days since 2000-01-01' and list(nc.variables['other'][:]) == [7, 8, 9])
+    except Exception:
+        got, same = 'ERR', None
+    finally:
+        try:
+            os.unlink(path)
+        except OSError:
+            pass
+    return got, same
+
+
+def fixattrs_first_cases() -> list:
+    """smallest inputs first: one plain reference under every spelling of the calendars of the real world"""
+    base = {'period': 'days', 'Y': 1990, 'M': 1, 'D': 1, 'h': 0, 'mi': 0, 's': 0, 'off': 600,
+            'sp': {'sep': 'T', 'seconds': True, 'pad': True, 'tz': 'colon', 'tzsep': ''}}
+    return [dict(base, calendar=cal) for cal in
+            ['proleptic_gregorian', 'gregorian', 'standard', 'Gregorian', 'GREGORIAN', 'Standard', 'STANDARD',
+             'Proleptic_Gregorian', 'PROLEPTIC_GREGORIAN']]
+
+
+def fixattrs_stream(ctx, batch: Batch) -> None:
+    """files written with netCDF4 directly: the time variable with / without `units` and `calendar` (the
+    calendar in any spelling); the real fix_time_units_for_ems against the model; nothing but the units
+    attribute may change; and the units attribute LEFT IN THE FILE is held against the property directly
+    (form, same instant, same zone) - a rewrite that is silently skipped leaves the old string there"""
     rng = ctx.rng
     tmp = tempfile.mkdtemp(prefix='c17fx')
     items = []
     try:
+        todo = [(case, TU.spell(case), case['calendar']) for case in fixattrs_first_cases()]
         for k in range(ctx.budget(40, 300)):
             case = TU.random_case(rng)
+            if rng.random() < 0.3:
+                case['calendar'] = calendar_spelling(rng, case['calendar'])
             units = TU.spell(case) if rng.random() < 0.85 else None
             cal = case['calendar'] if rng.random() < 0.85 else None
+            todo.append((case, units, cal))
+        for case, units, cal in todo:
             if units is not None and not ascii_ok(units):
                 continue
             if units is not None and ('\n' in units or ' ; ' in units):
                 continue
-            path = os.path.join(tmp, f'f{k}.nc')
-            with netCDF4.Dataset(path, 'w') as nc:
-                nc.createDimension('record', 3)
-                v = nc.createVariable('t', 'f8', ('record',))
-                v[:] = [0.0, 1.5, 2.0]
-                v.long_name = 'Time'
-                if units is not None:
-                    v.units = units
-                if cal is not None:
-                    v.calendar = cal
-                w = nc.createVariable('other', 'i4', ('record',))
-                w[:] = [7, 8, 9]
-                w.units = 'days since 2000-01-01'
-            try:
-                fix_time_units_for_ems(path, 't')
-                with netCDF4.Dataset(path) as nc:
-                    v = nc.variables['t']
-                    got = esc(v.getncattr('units'))
-                    same = (list(v[:]) == [0.0, 1.5, 2.0] and v.long_name == 'Time'
-                            and (cal is None or v.calendar == cal)
-                            and sorted(v.ncattrs()) == sorted(['long_name', 'units'] + (['calendar'] if cal is not None else []))
-                            and nc.variables['other'].units == 'days since 2000-01-01' and list(nc.variables['other'][:]) == [7, 8, 9])
-                ctx.evaluated()
-                if not same:
-                    ctx.oracle_fail('time-values-recalculated', {'op': 'fixattrs', 'units': units, 'calendar': cal},
-                                    'fix_time_units_for_ems changed something other than the units attribute of the time variable')
-            except Exception:
-                got = 'ERR'
             line = f"fixattrs {'!' if units is None else esc(units)} ; {'!' if cal is None else esc(cal)}"
-            items.append((line, got, {'op': line, 'units': units, 'calendar': cal}))
+            desc = {'op': line, 'units': units, 'calendar': cal}
+            got, same = impl_fixattrs(tmp, units, cal)
+            ctx.evaluated()
+            if same is False:
+                ctx.oracle_fail('time-values-recalculated', desc,
+                                'fix_time_units_for_ems changed something other than the units attribute of the time variable')
+            if units is not None and cal is not None:
+                # the file had both attributes: what is in the file now is "the rewritten time units string"
+                ctx.count('fixattrs:calendar-' + ('lower-case' if cal == cal.lower() else 'other-spelling'))
+                oracle_units(ctx, cal, units, got, case, dict(desc, case=case), fn='fix_time_units_for_ems on a file with')
+                if cal != cal.lower():
+                    ctx.nontrivial(('fixattrs', units, cal))
+            items.append((line, got, desc))
             ctx.count('fixattrs:' + ('ERR' if got == 'ERR' else 'ok'))
-            os.unlink(path)
     finally:
         shutil.rmtree(tmp, ignore_errors=True)
     batch.extend(items)
@@ -705,10 +776,11 @@ CONV_KIND = {'cf1d': 'generic', 'cf2d': 'generic', 'ugrid': 'generic',
 
 
 def add_time_candidates(ds, cands: list, nt: int, tdim: str = 'time'):
-    """cands: [(name, encoding-units | None, is_datetime, as_coord)] appended in order"""
+    """cands: [(name, encoding-units | None, is_datetime, as_coord[, scalar[, calendar spelling]])] appended in order"""
     import xarray as xr
     for name, units, is_dt, as_coord, *more in cands:
         scalar = bool(more and more[0])      # a snapshot: the time variable has no dimension at all
+        calendar = more[1] if len(more) > 1 and more[1] else 'proleptic_gregorian'
         if is_dt:
             data = np.array([np.datetime64('2000-01-01T00:00:00', 's') + np.timedelta64(k, 'D') for k in range(nt)])
         else:
@@ -717,7 +789,7 @@ def add_time_candidates(ds, cands: list, nt: int, tdim: str = 'time'):
         if units is not None:
             da.encoding['units'] = units
             if is_dt:
-                da.encoding['calendar'] = 'proleptic_gregorian'
+                da.encoding['calendar'] = calendar
         if as_coord:
             ds = ds.assign_coords({name: da})
         else:
@@ -787,6 +859,9 @@ def timecoord_stream(ctx, batch: Batch) -> None:
                                     'hours since 2000-01-01 12:00:00', 'since', 'hours Since 2000-01-01', 'sincerely'])
                 is_dt = rng.random() < 0.7
                 cands.append([name, units, is_dt, rng.random() < 0.5 and name == 'time', rng.random() < 0.4])
+                # the calendar as the source file spelled it (xarray keeps the spelling and writes it back)
+                cands[-1].append(calendar_spelling(rng, rng.choice(['proleptic_gregorian', 'standard']))
+                                 if rng.random() < 0.35 else 'proleptic_gregorian')
             tdim = rng.choice(['time', 'time', 'record', 't'])
             for cd in cands:
                 if cd[0] in (tdim, 'time', 't', 'record') or cd[3]:
@@ -794,33 +869,37 @@ def timecoord_stream(ctx, batch: Batch) -> None:
             if k < len(G.CONVS):
                 # smallest case first: a `time` dimension carried by one data variable, no time variable
                 cands, tdim = [], 'time'
-            res = timecoord_case(recipe, cands, tdim, tmp)
-            desc = {'op': f"timecoord {res['tail']}", 'recipe': recipe, 'cands': cands, 'tdim': tdim}
-            if res['saved'] == 'ERR':
-                ctx.evaluated()
-                sig = 'save-raises-time-dimension-only' if 'does not have a data array named' in res['error'] else 'save-raises'
-                named = {'shoc_standard': 't', 'shoc_simple': 'time'}.get(conv)
-                spec = next((cd for cd in cands if cd[0] == named), None)
-                if spec is not None and not spec[2]:
-                    # a SHOC dataset whose `t` / `time` variable is not a time variable: outside the quantifier
-                    ctx.count('timecoord:shoc-named-variable-is-not-a-time(outside quantifier)')
-                else:
-                    ctx.oracle_fail(sig, desc, f"{res['class']}.to_netcdf raised {res['error']} on a dataset with dimensions "
-                                               f"{res['dims']} and variables {res['order']} that plain xarray writes fine")
-            # direct statement for the unambiguous case: the dataset's only time variable (decoded datetimes, CF
-            # time units), of whatever shape, leaves the save with units EMS reads
-            clear = [cd for cd in cands if cd[2] and cd[1] and re.match(r'^\w+ since \d', cd[1])]
-            if len(clear) == 1 and sum(1 for cd in cands if cd[2]) == 1 and res.get('out_units') \
-                    and conv not in ('shoc_standard', 'shoc_simple'):
-                ctx.evaluated()
-                u = res['out_units'].get(clear[0][0]) or ''
-                if not re.fullmatch(r'\w+ since \d{4}-\d\d-\d\d \d\d:\d\d:\d\d [+-]\d\d:\d\d', u):
-                    ctx.oracle_fail('time-units-not-ems-form', desc,
-                                    f"the only time variable {clear[0][0]!r} ({'scalar' if clear[0][4] else 'along ' + tdim}) "
-                                    f"was saved with units {u!r}")
-            pending.append((res['tail'], res['got'], res['saved'], desc))
-            ctx.nontrivial(('timecoord', conv, tdim, tuple(map(tuple, cands))))
-            ctx.count(f'timecoord:{conv}:' + ('found' if res['got'] != '-' else 'none'))
+            def one(conv=conv, recipe=recipe, cands=cands, tdim=tdim):
+                res = timecoord_case(recipe, cands, tdim, tmp)
+                desc = {'op': f"timecoord {res['tail']}", 'recipe': recipe, 'cands': cands, 'tdim': tdim}
+                if res['saved'] == 'ERR':
+                    ctx.evaluated()
+                    sig = 'save-raises-time-dimension-only' if 'does not have a data array named' in res['error'] else 'save-raises'
+                    named = {'shoc_standard': 't', 'shoc_simple': 'time'}.get(conv)
+                    spec = next((cd for cd in cands if cd[0] == named), None)
+                    if spec is not None and not spec[2]:
+                        # a SHOC dataset whose `t` / `time` variable is not a time variable: outside the quantifier
+                        ctx.count('timecoord:shoc-named-variable-is-not-a-time(outside quantifier)')
+                    else:
+                        ctx.oracle_fail(sig, desc, f"{res['class']}.to_netcdf raised {res['error']} on a dataset with dimensions "
+                                                   f"{res['dims']} and variables {res['order']} that plain xarray writes fine")
+                # direct statement for the unambiguous case: the dataset's only time variable (decoded datetimes, CF
+                # time units), of whatever shape, leaves the save with units EMS reads
+                clear = [cd for cd in cands if cd[2] and cd[1] and re.match(r'^\w+ since \d', cd[1])]
+                if len(clear) == 1 and sum(1 for cd in cands if cd[2]) == 1 and res.get('out_units') \
+                        and {'shoc_standard': 't', 'shoc_simple': 'time'}.get(conv, clear[0][0]) == clear[0][0]:
+                    ctx.evaluated()
+                    u = res['out_units'].get(clear[0][0]) or ''
+                    if not re.fullmatch(r'\w+ since \d{4}-\d\d-\d\d \d\d:\d\d:\d\d [+-]\d\d:\d\d', u):
+                        ctx.oracle_fail('time-units-not-ems-form', desc,
+                                        f"the only time variable {clear[0][0]!r} ({'scalar' if clear[0][4] else 'along ' + tdim}, "
+                                        f"calendar {clear[0][5] if len(clear[0]) > 5 else 'proleptic_gregorian'!r}) "
+                                        f"was saved with units {u!r}")
+                pending.append((res['tail'], res['got'], res['saved'], desc))
+                ctx.nontrivial(('timecoord', conv, tdim, tuple(map(tuple, cands))))
+                ctx.count(f'timecoord:{conv}:' + ('found' if res['got'] != '-' else 'none'))
+            # (guarded: whatever a changed implementation raises or leaves in the file is a verdict, never a crash)
+            ctx.guarded(one, {'op': 'timecoord', 'recipe': recipe, 'cands': cands, 'tdim': tdim})
     finally:
         shutil.rmtree(tmp, ignore_errors=True)
     for tail, got, saved, desc in pending:
@@ -873,6 +952,10 @@ def roundtrip_recipe(ctx, conv: str) -> dict:
         if sp['sep'] not in ('T', ' '):
             sp['sep'] = ' '
         break
+    # the calendar as another tool spelled it in the source (`Gregorian`, `STANDARD`, ...): xarray folds the
+    # case when it decodes, keeps the spelling in the encoding and writes it back verbatim
+    if rng.random() < 0.4:
+        case['calendar'] = calendar_spelling(rng, case['calendar'])
     rt = {'recipe': recipe, 'case': case, 'tname': time_name_for(conv, rng),
           'mode': rng.choice(['memory', 'file']), 'step': rng.randint(1, 5), 'as_coord': rng.random() < 0.6}
     # in-memory encodings that xarray itself normalises when it writes the file (what ends up in the file is the
@@ -1005,7 +1088,7 @@ def run_roundtrip(ctx, rt: dict, tmp: str) -> list:
         # units, not the in-memory ones, are then what the rewrite has to preserve)
         oracle_units(ctx, raw_cal, raw_units, esc(out_units),
                      case if TU.utc_instant(case) == TU.utc_instant(rcase) and not rt.get('enc_dtype') else None,
-                               {'op': line, **desc})
+                     {'op': line, **desc}, fn=f'{type(c).__name__}.to_netcdf of a dataset whose time variable xarray writes with')
         items.append((line, esc(out_units), {'op': line, **desc}))
     else:
         # no time coordinate by this convention's rule: units stay as xarray wrote them
@@ -1083,7 +1166,8 @@ def roundtrip_stream(ctx, batch: Batch) -> None:
                 rt['case']['sp'].update({'tz': 'colon'})
                 rt['tname'] = {'shoc_standard': 't'}.get(conv, 'time')
             try:
-                items += run_roundtrip(ctx, rt, tmp)
+                # (guarded: whatever a changed implementation raises or leaves in the file is a verdict, never a crash)
+                ctx.guarded(lambda: items.extend(run_roundtrip(ctx, rt, tmp)), {'roundtrip': rt})
             finally:
                 for f in os.listdir(tmp):
                     try:
@@ -1173,6 +1257,21 @@ def run_one(ctx, inp: dict) -> dict:
             out['model'] = f'time_coordinate={a} save={b}'
         return out
     op = inp.get('op')
+    if op and op.startswith('fixattrs ') and 'units' in inp and 'calendar' in inp:
+        tmp = tempfile.mkdtemp(prefix='c17rp')
+        try:
+            got, same = impl_fixattrs(tmp, inp['units'], inp['calendar'])
+        finally:
+            shutil.rmtree(tmp, ignore_errors=True)
+        out['impl'] = got
+        if same is False:
+            out['other-attributes-or-values'] = 'changed'
+        if ctx.driver:
+            out['model'] = ctx.model([op])[0]
+        case = inp.get('case')
+        if case:
+            out['expected'] = TU.canonical(case) if TU.is_valid(case) else '(outside the quantifier)'
+        return out
     if op:
         impl = impl_of_line(op)
         if impl is not None:
